@@ -217,6 +217,16 @@ def fixed_stream(run, n, bit_ok):
         runs = [(["new"] + flags + ["-file=" + f], [("opaque", "GOpaque")] * cnt) for f, cnt in order]
         res.append(Pkg(name, {"user.go": user % name, "admin_user.go": admin % name}, runs,
                        {"cmd-new", "file-name-suffix"}))
+    # an explicit -type run followed by the all-in-one run of another file's go:generate line: the second run supersedes
+    # the first one's per-type file and has to remove it (a stale copy redeclares the constructor)
+    a_go = "package %s\n\n//go:generate shoot new%s -type=*\n\ntype Person struct {\n\tid   int\n\tname string\n}\n"
+    b_go = "package %s\n\ntype Contact struct {\n\tmail string\n\tprio uint8\n}\n"
+    for k, flags in enumerate([[], ["-getset"]]):
+        name = "fz%d" % k
+        fl = "".join(" " + f for f in flags)
+        runs = [(["new"] + flags + ["-type=Contact"], [("opaque", "GOpaque")]),
+                (["new"] + flags + ["-type=*"], [("opaque", "GOpaque")] * 2)]
+        res.append(Pkg(name, {"a.go": a_go % (name, fl), "b.go": b_go % name}, runs, {"cmd-new", "star-after-type"}))
     color = "package %s\n\ntype Color int\n\nconst (\n\tRed Color = iota\n\tGreen\n)\n"
     bg = "package %s\n\ntype Shade uint8\n\nconst (\n\tDark Shade = iota + 1\n\tLight\n)\n"
     for k, flags in enumerate([[], ["-json", "-text"]]):
@@ -268,6 +278,8 @@ def coq_case(pkg, o, sigs, d, build_ok, gofmt_ok, bit_fixed, data):
         hand_meths += s["meths"]
     files = []
     for p in written:
+        if p not in sigs and len(pkg.runs) > 1:
+            continue            # removed again by a later run of the same package (cleanup of superseded outputs)
         s = sigs[p]
         files.append("{| of_header := %s; of_pkg := %s; of_tops := %s; of_meths := %s |}" % (
             cs(s["first_line"]), cs(s["package"]), clist(cs(t) for t in s["tops"]),
@@ -339,7 +351,7 @@ def exercise(run, shoot, declsig, pkgs, bit_fixed, modname="c01mod", root=None):
         if "?" in errs:
             build_ok = False
         for ri, (o, (args, data)) in enumerate(zip(obs, pkg.runs)):
-            gofmt_ok = all(l2.gofmt_clean(d / f)[0] for f in o["written"])
+            gofmt_ok = all(l2.gofmt_clean(d / f)[0] for f in o["written"] if (d / f).exists() or len(pkg.runs) == 1)
             case = {"pkg": pkg, "obs": o, "build_ok": build_ok, "gofmt_ok": gofmt_ok, "run_index": ri,
                     "types": (pkg.run_types[ri] if getattr(pkg, "run_types", None) else None),
                     "build_errors": [l for e in berr for l in e][:40]}
